@@ -68,6 +68,7 @@ type observation struct {
 	deadlineArmed  bool          // the client armed the stream with a deadline …
 	deadlineIn     time.Duration // … this far in the future
 	hung           bool          // the call did not return although its stream's time was up
+	panicked       string
 }
 
 // clockConn is the renter's end of a stream under a simulated clock: it records the deadline the
@@ -275,6 +276,12 @@ func (w *world) attempt(rpc string, f fault) observation {
 	done := make(chan struct{})
 	go func() {
 		defer close(done)
+		defer func() {
+			if p := recover(); p != nil {
+				o.panicked = fmt.Sprint(p)
+				o.err = fmt.Errorf("panic: %v", p)
+			}
+		}()
 		switch rpc {
 		case "form":
 			params := proto4.RPCFormContractParams{
